@@ -187,7 +187,7 @@ def run(ctx):
     scope = set()
     for r0 in operand_roots:
         ctx.fn(r0)
-        scope |= {n for n in ctx.cg.reachable([r0]) if n.startswith("lace::parser::AsmParser::") and prog.fns[n].bkind == "fn"}
+        scope |= {n for n in ctx.cg.reachable([r0]) if n.startswith("lace::parser::AsmParser::") and n in prog.fns and prog.fns[n].bkind == "fn"}
     consumers = []
     for n in sorted(scope):
         f = prog.fns[n]
